@@ -141,7 +141,11 @@ def gen_history(rng):
     asc = bool(rng.random() < 0.6)
     if not asc:
         f, Z = f[::-1], Z[::-1]
-    ops = [{"op": "construct", "f": f, "Z": Z, "mask": _mk(_rand_mask(rng, n)), "asc": asc, "np": bool(rng.random() < 0.25),
+    form = str(rng.choice(["array", "list", "readonly", "view", "intf", "intlist"], p=[0.5, 0.1, 0.1, 0.15, 0.1, 0.05]))
+    if form in ("intf", "intlist"):
+        fi = np.cumsum(rng.integers(1, 50, size=n)).astype(float) * float(10 ** int(rng.integers(0, 4)))
+        f = [float(x) for x in (fi if asc else fi[::-1])]
+    ops = [{"op": "construct", "f": f, "Z": Z, "mask": _mk(_rand_mask(rng, n)), "asc": asc, "np": bool(rng.random() < 0.25), "form": form,
             "path": str(rng.choice(["", "/tmp/some dir/file.csv"])), "label": str(rng.choice(["", "lbl"]))}]
     nops = int(rng.integers(1, 14))
     fs = sorted(f)
@@ -296,7 +300,25 @@ def run_history(hist):
                 if op.get("np"):
                     stats["numpy_scalar_masks"] = stats.get("numpy_scalar_masks", 0) + 1
                     md = dict(caller)
+                form = op.get("form", "array")
+                stats["construct_form:" + form] = stats.get("construct_form:" + form, 0) + 1
+                if form == "list":
+                    f, Z = f.tolist(), Z.tolist()
+                elif form == "readonly":
+                    f.setflags(write=False)
+                    Z.setflags(write=False)
+                elif form == "view":  # strided views into larger arrays that hold other numbers in between
+                    fb, Zb = np.full(2 * len(f) + 1, 123.0), np.full(2 * len(Z) + 1, 9e9 - 7e9j)
+                    fb[1::2], Zb[1::2] = f, Z
+                    f, Z = fb[1::2], Zb[1::2]
+                elif form == "intf":
+                    f = f.astype(np.int64)
+                elif form == "intlist":
+                    f, Z = [int(x) for x in f], Z.tolist()
+                given = (np.array(f, dtype=float), np.array(Z, dtype=complex))
                 ds = DataSet(f, Z, mask=caller, path=op["path"], label=op["label"])
+                if not (np.array_equal(np.array(f, dtype=float), given[0]) and np.array_equal(np.array(Z, dtype=complex), given[1])):
+                    stats["caller_arrays_altered_by_constructor"] = stats.get("caller_arrays_altered_by_constructor", 0) + 1  # information only
                 if caller != md or list(caller.keys()) != list(md.keys()):
                     bad(step, "C05/caller-mask-altered", f"mask passed {md} is now {caller}")
                 lbl = op["label"] or os.path.splitext(os.path.basename(op["path"]))[0]
